@@ -34,6 +34,32 @@ fn main() {
             if reported.insert("invalid-lifetime-accepted") { rp_core::report(true, "invalid-lifetime-accepted", json!({"bundle": label}), json!("add_longterm_bundle returned Ok"), &["key_registry::KeyRegistry::add_longterm_bundle.ensures#only_currently_valid_bundles_accepted"]); }
         }
     }
+    // acceptance: a bundle whose pre-key signature was made by another key (forged rotation) is rejected, for an
+    // unknown member and for a member whose identity key is already known from a genuine bundle
+    let attacker = SecretKey::from_bytes(rng.random_array().unwrap());
+    for known in [false, true] {
+        for onetime_kind in [false, true] {
+            let mut y = KeyRegistry::<usize>::init();
+            if known {
+                let (p, sig) = mk_prekey(t - 60, t + 3600);
+                y = KeyRegistry::add_longterm_bundle(y, 0usize, LongTermKeyBundle::new(identity.verifying_key().unwrap(), p, sig)).expect("genuine bundle");
+            }
+            let s = SecretKey::from_bytes(rng.random_array().unwrap());
+            let p = PreKey::new(s.verifying_key().unwrap(), Lifetime::from_range(t - 60, t + 7200));
+            let sig = p.sign(&attacker, &rng).unwrap();
+            n += 1;
+            let accepted = if onetime_kind {
+                let ots = SecretKey::from_bytes(rng.random_array().unwrap());
+                KeyRegistry::add_onetime_bundle(y, 0usize, OneTimeKeyBundle::new(identity.verifying_key().unwrap(), p, sig, Some(OneTimePreKey::new(ots.verifying_key().unwrap(), 7)))).is_ok()
+            } else {
+                KeyRegistry::add_longterm_bundle(y, 0usize, LongTermKeyBundle::new(identity.verifying_key().unwrap(), p, sig)).is_ok()
+            };
+            if accepted && reported.insert("forged-signature-accepted") {
+                rp_core::report(true, "forged-signature-accepted", json!({"bundle": if onetime_kind { "one-time" } else { "long-term" }, "member_identity_already_known": known, "prekey_signed_by": "another key"}), json!("add_*_bundle returned Ok"),
+                    &["key_registry::KeyRegistry::add_longterm_bundle.ensures#only_currently_valid_bundles_accepted", "key_registry::KeyRegistry::add_longterm_bundle.ensures#invalid_bundle_rejected", "key_registry::KeyRegistry::add_onetime_bundle.ensures#only_currently_valid_bundles_accepted", "key_registry::KeyRegistry::add_onetime_bundle.ensures#invalid_bundle_rejected"]);
+            }
+        }
+    }
     // retrieval: short-lived bundles expire while stored
     let (p1, s1) = mk_prekey(t - 60, t + 2);
     let ot_secret = SecretKey::from_bytes(rng.random_array().unwrap());
@@ -58,6 +84,6 @@ fn main() {
         },
         _ => {}
     }
-    println!("{}", json!({"summary": true, "evaluations": n, "distinct_nontrivial": n, "exhaustive": false, "rule": "2 invalid-lifetime acceptance attempts + retrieval of a one-time and a long-term bundle 4 s after they were added with 2 s of validity left",
-        "bound": "4 scenarios, real clock", "samples": [{"bundle": "one-time, valid 2 s"}], "violating_classes": reported}));
+    println!("{}", json!({"summary": true, "evaluations": n, "distinct_nontrivial": n, "exhaustive": false, "rule": "2 invalid-lifetime + 4 forged-signature acceptance attempts (member known/unknown x long-term/one-time) + retrieval of a one-time and a long-term bundle 4 s after they were added with 2 s of validity left",
+        "bound": "8 scenarios, real clock", "samples": [{"bundle": "one-time, valid 2 s"}], "violating_classes": reported}));
 }
